@@ -18,9 +18,17 @@ Definition c_evalty (s : string) : res string :=
   else if String.eqb s "" then Err "SyntaxError"      (* eval("") *)
   else Err "NameError".
 
-(* issubclass on those classes: reflexive, everything below object, bool below int *)
+(* the classes of the values the harness binds (harness/c19.py: VALUE_CLASSES) that have one of
+   the names above as a proper base other than object; the harness compares this table with
+   the real issubclass before every run *)
+Definition class_bases : list (string * string) :=
+  [("bool", "int"); ("MyInt", "int"); ("Lvl", "int"); ("MyStr", "str"); ("float64", "float");
+   ("MyList", "list"); ("MyDict", "dict"); ("OrderedDict", "dict"); ("defaultdict", "dict");
+   ("NT", "tuple")].
+
+(* issubclass on those classes: reflexive, everything below object, the table *)
 Definition c_issub (a b : string) : bool :=
-  String.eqb a b || String.eqb b "object" || (String.eqb a "bool" && String.eqb b "int").
+  String.eqb a b || String.eqb b "object" || pair_mem a b class_bases.
 
 (* isinstance(v, T) = issubclass(type(v), T) *)
 Definition c_isinst (v : value) (t : string) : bool := c_issub (vty v) t.
@@ -43,7 +51,43 @@ Fixpoint eval_texpr (e : texpr) : res task :=
   end.
 
 (* ------------------------------------------------------------------ equalities *)
-Definition value_eqb (a b : value) : bool := String.eqb (vty a) (vty b) && N.eqb (vid a) (vid b).
+Definition okind_eqb (a b : okind) : bool :=
+  match a, b with
+  | ODataclass, ODataclass | OPydantic, OPydantic | OPlain, OPlain => true
+  | _, _ => false
+  end.
+
+(* equality of whole values: class, kind and every part (sets and mappings are written in a
+   canonical order by the harness) *)
+Fixpoint value_eqb (a b : value) {struct a} : bool :=
+  match a, b with
+  | V c i, V d j => String.eqb c d && N.eqb i j
+  | VSeq c xs, VSeq d ys =>
+      String.eqb c d &&
+      (fix go (xs ys : list value) {struct xs} : bool :=
+         match xs, ys with
+         | [], [] => true
+         | x :: r, y :: s => value_eqb x y && go r s
+         | _, _ => false
+         end) xs ys
+  | VMap c xs, VMap d ys =>
+      String.eqb c d &&
+      (fix go (xs ys : list (value * value)) {struct xs} : bool :=
+         match xs, ys with
+         | [], [] => true
+         | (k, x) :: r, (l, y) :: s => value_eqb k l && value_eqb x y && go r s
+         | _, _ => false
+         end) xs ys
+  | VObj k c xs, VObj l d ys =>
+      okind_eqb k l && String.eqb c d &&
+      (fix go (xs ys : list (string * value)) {struct xs} : bool :=
+         match xs, ys with
+         | [], [] => true
+         | (f, x) :: r, (g, y) :: s => String.eqb f g && value_eqb x y && go r s
+         | _, _ => false
+         end) xs ys
+  | _, _ => false
+  end.
 
 (* two dictionaries are equal as Python dicts: same size, same value under every key,
    no key twice (the observation is a real dict, the model's list must be one too) *)
